@@ -529,7 +529,11 @@ def main(argv):
         for src in ((TAINT_TEMPLATE % trig,) if trig not in extra_taint else (trig,)):
             for label, opts in OPTION_SETS + [('everything', dict(rename_globals=True, remove_literal_statements=True))]:
                 cases += 1
-                out = python_minifier.minify(src, **opts)
+                try:
+                    out = python_minifier.minify(src, **opts)
+                except Exception as e:
+                    fails.append({'oracle': 'compile', 'options': label, 'input': src, 'failure': 'minify raised %s: %s' % (type(e).__name__, str(e)[:80])})
+                    continue
                 a, b = sorted(all_identifiers(ast.parse(src))), sorted(all_identifiers(ast.parse(out)))
                 if a != b:
                     fails.append({'oracle': 'freeze', 'options': label, 'input': src, 'failure': 'identifiers changed in a module that uses %s: %s' % (trig, sorted(set(a) ^ set(b)))})
@@ -538,7 +542,11 @@ def main(argv):
                     fails.append({'oracle': 'behaviour', 'options': label, 'input': src, 'failure': 'behaviour differs in tainted module'})
     for label, opts in OPTION_SETS:
         cases += 1
-        out = python_minifier.minify(STAR_IMPORT, **opts)
+        try:
+            out = python_minifier.minify(STAR_IMPORT, **opts)
+        except Exception as e:
+            fails.append({'oracle': 'compile', 'options': label, 'input': STAR_IMPORT, 'failure': 'minify raised %s: %s' % (type(e).__name__, str(e)[:80])})
+            continue
         a, b = sorted(all_identifiers(ast.parse(STAR_IMPORT))), sorted(all_identifiers(ast.parse(out)))
         if a != b:
             fails.append({'oracle': 'freeze', 'options': label, 'input': STAR_IMPORT, 'failure': 'identifiers changed in a module with a star import: %s' % sorted(set(a) ^ set(b))})
